@@ -8,7 +8,7 @@ from typing import Dict, List, Optional, Set, Tuple
 from ..core import astutil as A
 from ..core.index import AnalysisError, FuncInfo, external_init_signature
 from ..selftest import M
-from .common import may_conds, T, attr_stores, calls_named, conds, every_origin, facts, need, subscript_stores, where
+from .common import may_conds, entails, T, attr_stores, calls_named, conds, every_origin, facts, need, subscript_stores, where
 from .rounding import check_helper, is_otround
 
 MARK = "ufo2ft.featureWriters.markFeatureWriter"
@@ -413,7 +413,33 @@ def r067(prog, chk):
     ok = any(o == "isnot" and ("number" in l) for o, l, r in fs) and any(o == "truthy" and l.endswith(".key") for o, l, r in fs)
     chk.ob("R06.7", f"{ml.short}|only numbered anchors with a key attach to ligature components", ok, where(ml), detail="number is not None and key",
            message=f"{ml.short}: un-numbered anchors reach the mark-to-ligature statement")
-    chk.minimum("R06.7", 6)
+    # glyph eligibility of both builders: never a mark glyph, and a member of the GDEF class whenever GDEF classes are defined
+    for fn_, ctor_name, cls_attr in ((mb, "MarkToBasePos", "base"), (ml, "MarkToLigaPos", "ligature")):
+        cs_ = [c for c in A.body_nodes(fn_.node) if isinstance(c, ast.Call) and A.callee_name(c) == ctor_name]
+        need(len(cs_) == 1, f"cannot interpret {fn_.short}: {ctor_name}")
+        gname = T(cs_[0].args[0])
+        cls_names = {t_.id for st_ in A.stmts_of(fn_.node) if isinstance(st_, ast.Assign) and isinstance(st_.value, ast.Attribute) and st_.value.attr == cls_attr
+                     and "gdefClasses" in T(st_.value) for t_ in st_.targets if isinstance(t_, ast.Name)}
+        need(cls_names, f"cannot interpret {fn_.short}: GDEF {cls_attr} class is not read")
+
+        def atomize(e, _g=gname, _cls=cls_names):
+            p_ = A.compare_parts(e)
+            if not p_:
+                return None
+            l_, op_, r_ = p_
+            if isinstance(op_, (ast.In, ast.NotIn)) and T(l_) == _g and "markGlyphNames" in T(r_):
+                return ("mark", isinstance(op_, ast.In))
+            if isinstance(op_, (ast.In, ast.NotIn)) and T(l_) == _g and T(r_) in _cls:
+                return ("inclass", isinstance(op_, ast.In))
+            if isinstance(op_, (ast.Is, ast.IsNot)) and T(l_) in _cls and A.is_const(r_, None):
+                return ("hasclass", isinstance(op_, ast.IsNot))
+            return None
+        gs_ = [g for g in conds(prog, fn_, cs_[0]) if g.polarity in (True, False)]
+        ok = entails(gs_, atomize, lambda env: (not env["mark"]) and ((not env["hasclass"]) or env["inclass"]), goal_atoms=("mark", "hasclass", "inclass"))
+        chk.ob("R06.7", f"{fn_.short}|a glyph gets {ctor_name} only if it is no mark glyph and, when GDEF classes exist, is in the {cls_attr} class", ok, where(fn_, cs_[0]),
+               detail=str([("" if g.polarity else "not ") + T(g.test, 70) for g in gs_][:4]),
+               message=f"{fn_.short}: {ctor_name} can be built for a mark glyph or for a glyph outside the GDEF {cls_attr} class")
+    chk.minimum("R06.7", 8)
 
 
 # ----------------------------------------------------------------------------- R06.8
@@ -574,6 +600,10 @@ def r0612(prog, chk):
 
 
 MUTANTS = [
+    M("ligature eligibility: or -> and (mutation scan k=270)", "ufo2ft/featureWriters/markFeatureWriter.py", "MarkFeatureWriter._makeMarkToLigaAttachments",
+      "glyphName in markGlyphNames or (ligatureClass is not None and glyphName not in ligatureClass)", "glyphName in markGlyphNames and (ligatureClass is not None and glyphName not in ligatureClass)", rule="R06.7"),
+    M("base eligibility ignores the GDEF base class", "ufo2ft/featureWriters/markFeatureWriter.py", "MarkFeatureWriter._makeMarkToBaseAttachments",
+      "glyphName in markGlyphNames or (baseClass is not None and glyphName not in baseClass)", "glyphName in markGlyphNames", rule="R06.7"),
     M("ligature components padded with aliased lists that are appended to (seeded C06d)", "ufo2ft/featureWriters/markFeatureWriter.py", "MarkFeatureWriter._makeMarkToLigaAttachments",
       "ligatureMarks = []", "ligatureMarks = []\nligatureMarks.extend([[]] * 3)\nligatureMarks[0].append(None)", rule="R06.12"),
     M("glyphs recorded as marks before the GDEF mark filter (seeded C06c)", "ufo2ft/featureWriters/markFeatureWriter.py", "MarkFeatureWriter._groupMarkGlyphsByAnchor",
